@@ -3218,7 +3218,10 @@ class BSP:
         prop_lump = BytesIO()
         prop_lump.write(struct.pack('<i', len(model_list)))
         for name in model_list:
-            prop_lump.write(struct.pack('<128s', name.encode('ascii', 'surrogateescape')))
+            name_bytes = name.encode('ascii', 'surrogateescape')
+            if len(name_bytes) > 128:
+                raise OverflowError(f'Static prop model "{name}" exceeds 128 character limit')
+            prop_lump.write(struct.pack('<128s', name_bytes))
 
         prop_lump.write(struct.pack('<i', len(leaf_array)))
         prop_lump.write(write_array(self.lump_layout['STATICPROPLEAF'], leaf_array))
